@@ -50,6 +50,7 @@ class Expression(ABC):
 PRECEDENCE_LOWEST = 1
 PRECEDENCE_LOGICAL_OR = 3
 PRECEDENCE_LOGICAL_AND = 4
+PRECEDENCE_RELATIONAL = 5
 PRECEDENCE_PREFIX = 7
 
 
@@ -96,6 +97,12 @@ class FilterExpression(Expression):
             operand = self._canonical_string(expression.right, PRECEDENCE_PREFIX)
             expr = f"!{operand}"
             return f"({expr})" if parent_precedence > PRECEDENCE_PREFIX else expr
+
+        if isinstance(expression, ComparisonExpression):
+            expr = str(expression)
+            return (
+                f"({expr})" if parent_precedence > PRECEDENCE_RELATIONAL else expr
+            )
 
         return str(expression)
 
@@ -173,6 +180,9 @@ class PrefixExpression(Expression):
         super().__init__(token)
 
     def __str__(self) -> str:
+        if isinstance(self.right, ComparisonExpression):
+            # '!' binds more tightly than a comparison operator.
+            return f"{self.operator}({self.right})"
         return f"{self.operator}{self.right}"
 
     def __eq__(self, other: object) -> bool:
